@@ -37,6 +37,10 @@ def oracle_case(res, ast, d1, d2, rng):
     try:
         lhs = build(ast).assume(forms(d1, rng)).evaluate(forms(d2, rng)).as_tuple()
         rhs = build(ast).evaluate({**forms(d2, rng), **forms(d1, rng)}).as_tuple()
+        union = {**d2, **d1}
+        if all(v[0] == v[1] for v in union.values()) and rhs == lhs:
+            # the same union with every value as a plain Python int
+            rhs = build(ast).evaluate({k: int(v[0]) for k, v in union.items()}).as_tuple()
     except Exception as e:
         return {"op": "assume-evaluate", "model": ast_json(ast), "d1": {k: list(v) for k, v in d1.items()}, "d2": {k: list(v) for k, v in d2.items()},
                 "problem": f"assume(d1).evaluate(d2) / evaluate(d1 ∪ d2) raised {type(e).__name__}: {str(e)[:160]}"}
@@ -67,7 +71,7 @@ def run(res, tier, seed):
     res.rule = RULE
     n_models = 350 if tier == "quick" else 4000
     per = 2 if tier == "quick" else 3
-    models = gen_valid(rng, n_models, res, constvar=0.05)
+    models = gen_valid(rng, n_models, res, constvar=0.12)
     cases = []
     for ast, m in models:
         res.count("depth_%d" % depth_of(m))
